@@ -39,6 +39,8 @@ def patterns():
         'ifexp': lambda: M.MIfExp(test=m(t=...), body=m(b=...), orelse=m(e=...)),
         'boolop2': lambda: M.MBoolOp(values=[m(a=...), m(b=...)]),
         'call_a0': lambda: M.MCall(func=m(fn=...), _args=[m(a0=...), Q(rest=...)]),
+        'call_r0': lambda: M.MCall(func=m(fn=...), args=[m(a0=...), Q(rest=...)]),
+        'class_b0': lambda: M.MClassDef(bases=[m(a0=...), Q(rest=...)]),
         'add0': lambda: M.MBinOp(left=m(l=...), op=M.MAdd, right=M.MConstant(0)),
         'not_': lambda: M.MUnaryOp(op=M.MNot, operand=m(x=...)),
         'arguments': lambda: M.Marguments,
@@ -103,6 +105,7 @@ TEMPLATES = {
     'e_a0_args': '__FST_fn(__FST_a0, __FST_rest)',
     'e_a0_wrap': 'g(0, __FST_a0, __FST_rest)',
     'e_a0_two': 'g(__FST_a0, __FST_a0, __FST_rest, k=1)',
+    's_class_rest': 'class New(__FST_a0, __FST_rest):\n    pass',
     's_for_chain': 'for __FST_t in chain(__FST_i, 0):\n    __FST_b',
     's_if_check': 'if check(__FST_t, 1):\n    __FST_b',
     's_if_list': 'if [__FST_t, 1]:\n    __FST_b\nelse:\n    __FST_e',
@@ -223,6 +226,10 @@ r5 = outer(inner(innermost(1, 2), 3), last=inner(4))
 
 class C(Base, metaclass=M, **kw):
     r6 = build(x, y=1)
+
+
+class D(B1, B2, metaclass=M, *mixins): pass
+r7 = spread(p0, p1, sep=s, *tail)
 ''',
     # containers: lists / tuples / dicts of every length, nested, with unpacking
     '''\
